@@ -7,7 +7,7 @@ use std::sync::Arc;
 use vsched::rt;
 
 pub fn list() -> Vec<(&'static str, super::Scenario)> {
-    vec![("pipe_drop_output", pipe_drop_output)]
+    vec![("pipe_drop_output", pipe_drop_output), ("pipe_in_items", pipe_in_items), ("pipe_out", pipe_out)]
 }
 
 fn dobj(w: &World) -> (Arc<Desync<Payload>>, Arc<ObjState>) {
@@ -70,6 +70,179 @@ fn pipe_drop_output(cfg: &Cfg) {
     if w.payload_drops.load(AO::SeqCst) != 1 {
         rt::violation(format!("DROP-COUNT payload dropped {} times", w.payload_drops.load(AO::SeqCst)));
     }
+    check_no_unplanned_panics();
+    rt::quiesce();
+    shutdown();
+}
+
+fn feed(ctl: &StreamCtl, n: u32, pat: i64, end: bool) {
+    match pat {
+        // one at a time
+        1 => {
+            for i in 0..n {
+                ctl.push(i + 1);
+            }
+        }
+        // bursts of two
+        2 => {
+            let mut i = 0;
+            while i + 1 < n {
+                ctl.push2(i + 1, i + 2);
+                i += 2;
+            }
+            if i < n {
+                ctl.push(i + 1);
+            }
+        }
+        _ => {}
+    }
+    if end {
+        ctl.end();
+    }
+}
+
+/// C11: pipe_in with `n` items arriving by pattern `pat` (0 preloaded, 1 one by one from a producer
+/// thread, 2 in bursts of two), a concurrent operation `conc` on the same object (0 none, 1 sync, 2 desync),
+/// and either the stream ending (`fin`=0) or the Desync being dropped with the input still open (`fin`=1,
+/// followed by one more input event)
+fn pipe_in_items(cfg: &Cfg) {
+    let pool = cfg.pool();
+    setup(pool);
+    let (n, pat, conc, fin) = (cfg.get("n") as u32, cfg.opt("pat", 1), cfg.opt("conc", 1), cfg.opt("fin", 0));
+    let w = World::new();
+    let (obj, st) = dobj(&w);
+    let pre: Vec<u32> = if pat == 0 { (1..=n).collect() } else { vec![] };
+    let (stream, ctl) = scripted_stream(&pre);
+    let closure_drops = Arc::new(AtomicUsize::new(0));
+    let dc = DropCount(closure_drops.clone());
+    let st2 = st.clone();
+    let processed = Arc::new(std::sync::Mutex::new(Vec::<u32>::new()));
+    let processed2 = processed.clone();
+    pipe_in(obj.clone(), stream, move |p: &mut Payload, item: u32| {
+        let _keep = &dc;
+        p.check("pipe-item");
+        st2.enter("pipe-item");
+        vsched::thread::yield_now();
+        processed2.lock().unwrap().push(item);
+        st2.exit();
+        futures::future::ready(()).boxed()
+    });
+    // weak ownership: the pipe must not keep the Desync alive
+    let ctl2 = ctl.clone();
+    let producer = spawn(move || feed(&ctl2, n, pat, fin == 0));
+    let mut hs = vec![];
+    let wobj = Obj::D(obj.clone(), st.clone());
+    match conc {
+        1 => {
+            let (w1, o1) = (w.clone(), wobj.clone());
+            hs.push(spawn(move || { w1.sync(&o1, "S", Body::plain()); }));
+        }
+        2 => {
+            w.desync(&wobj, "D", Body::plain());
+        }
+        _ => {}
+    }
+    drop(wobj);
+    for (i, h) in hs.into_iter().enumerate() {
+        join(h, &format!("conc{}", i));
+    }
+    join(producer, "producer");
+    rt::quiesce();
+    if pool == 0 {
+        // with no pool threads the caller carries the work
+        obj.sync(|_| ());
+        rt::quiesce();
+    }
+    let expect: Vec<u32> = (1..=n).collect();
+    let got = processed.lock().unwrap().clone();
+    if got != expect {
+        rt::violation(format!("PIPE-IN-ITEMS processed {:?}, the stream yielded {:?}", got, expect));
+    }
+    if Arc::strong_count(&obj) != 1 {
+        rt::violation(format!("PIPE-IN-STRONG pipe_in holds {} strong reference(s) on the Desync", Arc::strong_count(&obj) - 1));
+    }
+    w.check_quiet();
+    if fin == 0 {
+        // the stream ended: stream and closure are released
+        if ctl.stream_drops() != 1 || closure_drops.load(AO::SeqCst) != 1 {
+            rt::violation(format!("PIPE-IN-LEAK after the stream ended: stream drops={} closure drops={}", ctl.stream_drops(), closure_drops.load(AO::SeqCst)));
+        }
+        drop(obj);
+    } else {
+        // the Desync goes away with the input still open; the first stream event afterwards releases everything
+        drop(obj);
+        if w.payload_drops.load(AO::SeqCst) != 1 {
+            rt::violation("PIPE-IN-STRONG the payload was not destroyed when the caller dropped its Arc".into());
+        }
+        ctl.push(99);
+        rt::quiesce();
+        if pool > 0 && (ctl.stream_drops() != 1 || closure_drops.load(AO::SeqCst) != 1) {
+            rt::violation(format!("PIPE-IN-LEAK after the Desync was dropped and the input produced an event: stream drops={} closure drops={}", ctl.stream_drops(), closure_drops.load(AO::SeqCst)));
+        }
+        if processed.lock().unwrap().len() != n as usize {
+            rt::violation("PIPE-IN-ITEMS an item was processed after the Desync was destroyed".into());
+        }
+    }
+    if w.payload_drops.load(AO::SeqCst) != 1 {
+        rt::violation(format!("DROP-COUNT payload dropped {} times", w.payload_drops.load(AO::SeqCst)));
+    }
+    check_no_unplanned_panics();
+    rt::quiesce();
+    shutdown();
+}
+
+/// C12: pipe with back-pressure depth `d`, `n` items arriving by pattern `pat`, the consumer is a task
+/// on the main thread; then the input ends
+fn pipe_out(cfg: &Cfg) {
+    let pool = cfg.pool();
+    setup(pool);
+    let (n, d, pat) = (cfg.get("n") as u32, cfg.get("d") as usize, cfg.opt("pat", 1));
+    let w = World::new();
+    let (obj, st) = dobj(&w);
+    let pre: Vec<u32> = if pat == 0 { (1..=n).collect() } else { vec![] };
+    let (stream, ctl) = scripted_stream(&pre);
+    let st2 = st.clone();
+    let mut out = pipe(obj.clone(), stream, move |p: &mut Payload, item: u32| {
+        p.check("pipe-item");
+        st2.enter("pipe-item");
+        vsched::thread::yield_now();
+        st2.exit();
+        futures::future::ready(item + 100).boxed()
+    });
+    out.set_backpressure_depth(d);
+    let ctl2 = ctl.clone();
+    let producer = spawn(move || feed(&ctl2, n, pat, true));
+    if pat == 0 {
+        ctl.end();
+    }
+    let prev = rt::note("in:pipe-consumer");
+    let mut got = vec![];
+    loop {
+        match block_on(out.next()) {
+            Some(v) => got.push(v),
+            None => break,
+        }
+        if got.len() > n as usize + 2 {
+            break;
+        }
+    }
+    rt::note(&prev);
+    let expect: Vec<u32> = (1..=n).map(|i| i + 100).collect();
+    if got != expect {
+        rt::violation(format!("PIPE-OUT-ITEMS consumer received {:?}, expected {:?} then end of stream", got, expect));
+    }
+    join(producer, "producer");
+    rt::quiesce();
+    drop(out);
+    rt::quiesce();
+    w.check_quiet();
+    if ctl.stream_drops() != 1 {
+        rt::violation(format!("PIPE-OUT-LEAK input stream dropped {} times after the pipe finished", ctl.stream_drops()));
+    }
+    if Arc::strong_count(&obj) != 1 {
+        rt::violation(format!("PIPE-OUT-LEAK the finished pipe still holds {} strong reference(s) on the Desync", Arc::strong_count(&obj) - 1));
+    }
+    drop(obj);
     check_no_unplanned_panics();
     rt::quiesce();
     shutdown();
